@@ -84,8 +84,13 @@ pub fn c05_run(c: &mut Ctx, fam: Fam, b: &[u8], base: &(R0, usize), sched: &[Ste
         }
     }
     for msg in &run.contract {
-        let key = if msg.starts_with("Pending invented") { "pending-invented" } else { "ready-after-transport-pending" };
-        c.violation(format!("C05:v{}:{}", f, key), msg.clone(), scase(fam, b, sched, mode));
+        if msg.starts_with("Pending invented") {
+            c.violation(format!("C05:v{}:pending-invented", f), msg.clone(), scase(fam, b, sched, mode));
+        } else {
+            // "Ready in a poll in which the transport pended" is not forbidden by the property's wording
+            // (a wrong result or a read beyond the frame is caught by the other checks): observed, not judged
+            c.count("observed.ready-after-transport-pending");
+        }
     }
     if let Some(msg) = check_asks(&rd.log, b, 0) {
         let key = if msg.starts_with("header") { "header-overask" } else { "body-overask" };
